@@ -17,6 +17,7 @@ import (
 
 type Clause struct {
 	Label string
+	Only  []string // `[label @C04,C07]`: the clause is an obligation of these properties only
 	Text  string
 	Expr  ast.Expr
 	Pos   string
@@ -393,13 +394,23 @@ func (cs *Contracts) parseFile(root, file string) error {
 	return nil
 }
 
-var labelRe = regexp.MustCompile(`^\[([\w\-./:]+)\]\s*`)
+var labelRe = regexp.MustCompile(`^\[([\w\-./:]+)(?:\s+@([\w,]+))?\]\s*`)
+
+// currentProp is the property being checked (empty: all clauses are obligations).
+var currentProp string
+
+func (c Clause) skipped() bool {
+	return len(c.Only) > 0 && currentProp != "" && !contains(c.Only, currentProp)
+}
 
 func parseClause(text, pos string) (Clause, error) {
 	c := Clause{Pos: pos}
 	text = strings.TrimSpace(text)
 	if m := labelRe.FindStringSubmatch(text); m != nil {
 		c.Label = m[1]
+		if m[2] != "" {
+			c.Only = strings.Split(m[2], ",")
+		}
 		text = text[len(m[0]):]
 	}
 	c.Text = text
